@@ -133,7 +133,7 @@ func init() {
 		// sync (single-threaded semantics)
 		"(*sync.Once).Do":           extOnceDo,
 		"(*sync.Pool).Get":          extPoolGet,
-		"(*sync.Pool).Put":          extNop,
+		"(*sync.Pool).Put":          extPoolPut,
 		"(*sync.Mutex).Lock":        extLockHB,
 		"(*sync.Mutex).Unlock":      extUnlockHB,
 		"(*sync.Mutex).TryLock":     func(fr *frame, args []value) value { return true },
@@ -539,9 +539,34 @@ func extUnlockHB(fr *frame, args []value) value {
 	return nil
 }
 
-func extPoolGet(fr *frame, args []value) value {
-	// always miss: call New if set
+// sync.Pool: by default Get always misses (calls New), which is a legal
+// behaviour of the real pool. After zzverif.PoolReuse(true) the pool behaves
+// the way it does for a single goroutine between garbage collections: Get
+// returns the object Put most recently (LIFO).
+func extPoolPut(fr *frame, args []value) value {
+	if !fr.i.poolReuse {
+		return nil
+	}
 	p := args[0].(*value)
+	if itf, ok := args[1].(iface); ok && itf.t == nil {
+		return nil // Put(nil) is ignored
+	}
+	if fr.i.pools == nil {
+		fr.i.pools = map[*value][]value{}
+	}
+	fr.i.pools[p] = append(fr.i.pools[p], args[1])
+	return nil
+}
+
+func extPoolGet(fr *frame, args []value) value {
+	p := args[0].(*value)
+	if fr.i.poolReuse {
+		if st := fr.i.pools[p]; len(st) > 0 {
+			v := st[len(st)-1]
+			fr.i.pools[p] = st[:len(st)-1]
+			return v
+		}
+	}
 	st := (*p).(structure)
 	newFn := st[len(st)-1]
 	switch f := newFn.(type) {
